@@ -53,29 +53,38 @@ SPEC = {
          'extra_libs': ['vmutate'], 'sinks': {'C13_sites_reader': 'site_judge'}, 'n': {'quick': 1, 'thorough': 1}},
     ],
     'rule': 'exhaustive single-site mutation sweep: honest traffic of both plugins (commit: 4 scenarios select / build / build with a leader-supplied RMN bundle '
-            'while RMN is disabled / wait; execute: the three phases; N=4 oracles; each scenario under three discovery configurations: no discovery processor, discovery enabled with '
-            'contracts initialised, discovery enabled on a fresh instance) is serialised, every node of every JSON document (observation of one oracle, query, '
-            'previous outcome, outcome fed to Reports, report, report info) is enumerated and mutated in 9 ways (null, empty, zero, 2^64-1, negative, duplicate element, '
-            'delete, type confusion, big / odd string), and every callback that consumes the document is driven under recover() and a 3 s watchdog (a watch that stretches when the test process itself is starved, with a second chance of 6 s before a hang is recorded; it never depends on the wall clock alone): ValidateObservation, '
-            'then Outcome and Reports only with observations that individually passed validation, Observation / Query on mutated previous outcomes and queries, '
-            'ShouldAccept / ShouldTransmit on mutated reports; plus random double-site mutations of the observation (quick 400, thorough 40 000) and a raw byte stream (truncated, random, single-byte corrupted, tiny literals) at every entry point. '
-            'One case per (document, site, mutation, callback); the observable is the termination code (returned / panicked / watchdog). C13_reader_*: every answer a scripted contract reader gives while either plugin observes through the real ccipChainReader (all phases) is mutated at every JSON node in turn (reader results: nil-valued, empty, inconsistent). The RMN controller\'s response '
-            'handling is swept by the C06 harness (sink C06_sweep, judged here too): every single anomaly and every PAIR of anomalies out of 38 observation-response and 14 signature-response anomalies '
-            '(extra / duplicate / missing lanes, root lengths 0/5/31/33, nil sub-messages, wrong ids and senders, wrong interval / on-ramp / digest, bad signatures, garbage bodies) applied to one response of an honest run; outcome kinds panic and watchdog are violations. Borrowed parts: the function-level harnesses of C17 (truncateObservation / truncateLastCommit / truncateChain), C09 (computeRanges, '
-            'filterOutExecutedMessages, getPendingExecutedReports) and C08 (report builder Add, selectReport) are run again here and judged ONLY for the termination kind they recorded (recovered panic / watchdog = violation; '
-            'judges p_* in Check/C13_check.v). '
-            'C13_sites_*: directed classes, one per (guard, use) pair of Model/PanicSites2.v, run in the package that owns the functions (commit, commit/merkleroot, '
-            'commit/merkleroot/rmn, execute, execute/report, pkg/reader): the REAL function pair is called with inputs around the guard boundary — lengths n-2..n+2 of the two '
-            'lists of every zip site (reader answers vs. things asked about, token data vs. messages, token data of two observers), index idx in {0, 1, len-1, len, len+1} '
-            'against both lengths of checkMessage, nil / empty / 31 / 32 / 33 / 64-byte fields of every entry of the query\'s RMN bundle behind a good entry, all 16 '
-            'combinations of (BuildingReport, retry, bundle present, remote config empty) of verifyQuery, Deviates on {0, +-1, 2, +-1000, 1e18}^2, Append at len-1 / len / '
-            'len+1 / len+7, KeepNRightBytes with n in {0, 1, 19, 20, 21, 32, 33, MaxUint}, USDC payloads of 0 / 31 / 32 / 59 / 63 / 64 / 65 bytes, fee components and '
-            'prices present / nil, packed fee updates nil / 0 / 1 / negative / 2^200 with and without timestamp, price feed answers nil x decimals {0, 6, 17, 18, 19, 36, 255}, '
-            'a chain writer answering (nil, nil), and the executed-range loop of filterOutExecutedMessages on reports [hi-w, hi], w in {0, 1, 3}, hi in {20, 2^64-2, 2^64-1}, '
-            'with executed ranges around both ends (watchdog 150 ms + 300 ms second chance, same kind of watch; the part stops at the first hang because the loop also allocates without bound). '
-            'A case is (abstract site input, 0 returned / 1 returned an error / 2 panicked / 3 did not return); Coq evaluates the site\'s model on the same input and '
-            'compares the code exactly (a guard that became weaker or stricter is a mismatch), the executable property is "never 2 or 3". '
-            'non-trivial: every case; distinct by digest',
+            'while RMN is disabled / wait; execute: the three phases; N=4 oracles; each scenario under three discovery configurations: no discovery processor, '
+            'discovery enabled with contracts initialised, discovery enabled on a fresh instance) is serialised, every node of every JSON document (observation of '
+            'one oracle, query, previous outcome, outcome fed to Reports, report, report info) is enumerated and mutated in 9 ways (null, empty, zero, 2^64-1, '
+            'negative, duplicate element, delete, type confusion, big / odd string), and every callback that consumes the document is driven under recover() and a '
+            '3 s watchdog (a watch that stretches when the test process itself is starved, with a second chance of 6 s before a hang is recorded; it never depends '
+            'on the wall clock alone): ValidateObservation, then Outcome and Reports only with observations that individually passed validation, Observation / '
+            'Query on mutated previous outcomes and queries, ShouldAccept / ShouldTransmit on mutated reports; plus random double-site mutations of the observation '
+            '(quick 400, thorough 40 000) and a raw byte stream (truncated, random, single-byte corrupted, tiny literals) at every entry point. One case per '
+            '(document, site, mutation, callback); the observable is the termination code (returned / panicked / watchdog). C13_reader_*: every answer a scripted '
+            'contract reader gives while either plugin observes through the real ccipChainReader (all phases) is mutated at every JSON node in turn (reader '
+            "results: nil-valued, empty, inconsistent). The RMN controller's response handling is swept by the C06 harness (sink C06_sweep, judged here too): every "
+            'single anomaly and every PAIR of anomalies out of 38 observation-response and 14 signature-response anomalies (extra / duplicate / missing lanes, root '
+            'lengths 0/5/31/33, nil sub-messages, wrong ids and senders, wrong interval / on-ramp / digest, bad signatures, garbage bodies) applied to one response '
+            'of an honest run; outcome kinds panic and watchdog are violations. Borrowed parts: the function-level harnesses of C17 (truncateObservation / '
+            'truncateLastCommit / truncateChain), C09 (computeRanges, filterOutExecutedMessages, getPendingExecutedReports) and C08 (report builder Add, '
+            'selectReport) are run again here and judged ONLY for the termination kind they recorded (recovered panic / watchdog = violation; judges p_* in '
+            'Check/C13_check.v). C13_sites_*: directed classes, one per (guard, use) pair of Model/PanicSites2.v, run in the package that owns the functions '
+            '(commit, commit/merkleroot, commit/merkleroot/rmn, execute, execute/report, pkg/reader): the REAL function pair is called with inputs around the guard '
+            'boundary — lengths n-2..n+2 of the two lists of every zip site (reader answers vs. things asked about, token data vs. messages, token data of two '
+            'observers), index idx in {0, 1, len-1, len, len+1} against both lengths of checkMessage, nil / empty / 31 / 32 / 33 / 64-byte fields of every entry of '
+            "the query's RMN bundle behind a good entry, all 16 combinations of (BuildingReport, retry, bundle present, remote config empty) of verifyQuery, "
+            'Deviates on {0, +-1, 2, +-1000, 1e18}^2, Append at len-1 / len / len+1 / len+7, KeepNRightBytes with n in {0, 1, 19, 20, 21, 32, 33, MaxUint}, USDC '
+            'payloads of 0 / 31 / 32 / 59 / 63 / 64 / 65 bytes, fee components and prices present / nil, packed fee updates nil / 0 / 1 / negative / 2^200 with and '
+            'without timestamp, price feed answers nil x decimals {0, 6, 17, 18, 19, 36, 255}, a chain writer answering (nil, nil), and the executed-range loop of '
+            'filterOutExecutedMessages on reports [hi-w, hi], w in {0, 1, 3}, hi in {20, 2^64-2, 2^64-1}, with executed ranges around both ends (watchdog 150 ms + '
+            '300 ms second chance, same kind of watch; the part stops at the first hang because the loop also allocates without bound). A case is (abstract site '
+            "input, 0 returned / 1 returned an error / 2 panicked / 3 did not return); Coq evaluates the site's model on the same input and compares the code "
+            'exactly (a guard that became weaker or stricter is a mismatch), the executable property is "never 2 or 3". C13_query_ctx: merkleroot.Processor.Query '
+            'with a scripted controller that inspects the context it is handed, for RMNSignaturesTimeout in {50 ms, 5 s, 24 h} x caller context in {background, '
+            'deadline in one hour, already cancelled} (9 cases): the context must carry a deadline no later than both bounds and be cancelled with the caller (no '
+            'wall-clock measurement). The C11 history parts (long-lived plugins over the real home-chain poller through role-map changes) are borrowed as well and '
+            'judged for panics only. non-trivial: every case; distinct by digest',
     'trusted': ['encoding/json, protobuf, math/big, hex.DecodeString, big.Int.SetString never panic on any input (library oracles)',
                 'logging calls with %v of arbitrary values do not panic',
                 'contract-reader results are those of the real ccipChainReader guards (nil big integers are turned into errors there) — the fakes answer within that contract'],
@@ -85,24 +94,39 @@ SPEC = {
                     'the (guard, use) models abstract payloads to their lengths / nil-ness; what the guarded code computes with the values is other properties\' business'],
     'modelled': 'PanicSites.v: custom JSON unmarshalers with explicit slice bounds, execute state decoding + PluginState.Next, getMessagesOutcome range loop, Median / '
                 'aggregators over nil big integers with the validation that guards them; Rmn.v (C06): RMN controller response handling; Truncate.v (C17): observation '
-                'truncation; PanicSites2.v: 26 (guard, use) pairs — the seven "length check before zip loop" sites (ValidateMerkleRootsState, ObserveOffRampNextSeqNums, '
-                'ObserveFeedTokenPrices, getAllOffRampSourceChainsConfig, buildSingleChainReportHelper, tokendata.merge, GetFeeQuoterTokenUpdates), checkMessage and the '
-                'builder loop, NewECDSASigFromPB, NewLaneUpdatesFromPB, verifyQuery / buildReport on the query bundle, Deviates (and on medians of validated values), '
-                'MessageTokenData.Append, the nested map writes of mergeTokenObservations, validateRootLengths + Bytes32(root), values[len-1] of '
-                'gotSufficientObservationResponses, KeepNRightBytes, unpackID, NewSourceTokenDataPayloadFromBytes, MessageExecCostUSD18, GetChainFeePriceUpdate + '
-                'FromPackedFee, MessageFeeUSD18 (F70), the executed-range loop of filterOutExecutedMessages (F71), getRawTokenPriceE18Normalized (F73), '
-                'GetChainsFeeComponents (F74)',
-    'level_text': 'PARTIAL. Proof: 69 Coq theorems over res-monad (Ok / Err / Panic / Spin) models of the panic and spin sites. First batch (14): unmarshalers never panic for any '
-                  'byte string; any previous-outcome state string is rejected or advanced; the repaired message loop is total and refines the original; validated aggregates '
-                  'never dereference nil; the RMN controller never panics and returns by the deadline for every event list; truncation is total. Second batch (55, '
-                  'PanicSites2): for each of 26 (guard, use) pairs "the function as it stands never panics / spins for ALL inputs" plus a witness that the bare use panics '
-                  'without its guard (and an exact characterisation for the zip loops: panics iff the indexed list is shorter); for the five sites that had NO guard '
-                  '(F70 nil FeeValueJuels, F71 uint64 loop ending at 2^64-1, F72 fee quoter answer shorter than the token list, F73 price feed answer without a value, '
-                  'F74 chain writer answering (nil, nil)) the repaired function is proved total and equal to the original on every input on which that one returned, with '
-                  '_unfixed_refuted witnesses replayed on the real code. PROVED sites: see "modelled". SWEPT ONLY (docs/c13_sites.md, 291 of 788 analyser rows): sort '
-                  'comparators, map writes into maps made in the same function, make sizes, receiver field accesses, the token-data HTTP client, discovery aggregation, '
-                  'nonce / costly-message / commit-report merges, reader event decoding (type assertions with ok). Correspondence: the exhaustive single-site mutation '
-                  'sweep (about 100 000 cases) must find no panic and no hang; the directed site classes (905 cases) must agree with the models code for code.',
-    'level_note': 'Partial by nature: a theorem excludes panics only at modelled sites; code the model abstracts (logging, third-party libraries, goroutine scheduling) is covered '
-                  'by the sweep only. Trusted: Coq kernel, models, library oracles. No axioms.',
+                'truncation; PanicSites2.v: 26 (guard, use) pairs — the seven "length check before zip loop" sites (ValidateMerkleRootsState, '
+                'ObserveOffRampNextSeqNums, ObserveFeedTokenPrices, getAllOffRampSourceChainsConfig, buildSingleChainReportHelper, tokendata.merge, '
+                'GetFeeQuoterTokenUpdates), checkMessage and the builder loop, NewECDSASigFromPB, NewLaneUpdatesFromPB, verifyQuery / buildReport on the query bundle, '
+                'Deviates (and on medians of validated values), MessageTokenData.Append, the nested map writes of mergeTokenObservations, validateRootLengths + '
+                'Bytes32(root), values[len-1] of gotSufficientObservationResponses, KeepNRightBytes, unpackID, NewSourceTokenDataPayloadFromBytes, '
+                'MessageExecCostUSD18, GetChainFeePriceUpdate + FromPackedFee, MessageFeeUSD18 (F70), the executed-range loop of filterOutExecutedMessages (F71), '
+                'getRawTokenPriceE18Normalized (F73), GetChainsFeeComponents (F74). Translated from source per run: exectypes.PluginState.Next, IsValid with the state '
+                'constant block, SeqNumRange.Contains (C13_gen.v); filterOutExecutedMessages is refused by the translator and stays hand-modelled. Not modelled (swept '
+                'only): the 291 rows marked so in docs/c13_sites.md',
+    'level_text': 'PARTIAL. Proof: 79 closed Coq theorems. 69 property theorems over res-monad (Ok / Err / Panic / Spin) models of panic and non-termination sites. First '
+                  'batch (14): the custom unmarshalers never panic for any byte string; any previous-outcome state string is rejected or advanced '
+                  '(C13_exec_state_never_panics); the repaired message-range loop is total and refines the original; validated aggregates never dereference nil; the RMN '
+                  'controller never panics and returns by the deadline for every event list (C06); truncation is total (C17). Second batch (55, PanicSites2): for each of '
+                  '26 (guard, use) pairs "the function as it stands never panics / spins for ALL inputs" (C13_<site>_never_panics) plus a _guard_needed_refuted witness '
+                  'that the bare use panics (zip loops: panics iff the indexed list is shorter); for the five sites that had NO guard (F70..F74, repaired in /repo) the '
+                  'repaired function is total and equal to the original wherever that one returned, with _unfixed_refuted witnesses; also refuted: F19a, F19b, F20-class '
+                  'truncation, unvalidated median. Judge soundness (10 C13_judge_*): sweep sinks accept exactly "returned"; site sinks accept the model\'s code and imply '
+                  'no_crash; borrowed sinks are judged for the termination kind only. Correspondence, every run: exhaustive single-site JSON mutation sweep of honest '
+                  'traffic through every callback of both real plugins under recover() and a starvation-aware watchdog, plus raw byte streams (about 100 000 cases); '
+                  'every answer of the scripted contract readers below the real ccipChainReader mutated at every node (C13_reader_*); directed boundary classes drive the '
+                  'REAL (guard, use) pairs and must agree with the models code for code (C13_sites_*, about 900 cases); the context Query hands to the RMN controller is '
+                  'inspected (bounded by RMNSignaturesTimeout and by the caller, cancelled with it: C13_query_ctx); the C06 anomaly-pair sweep and the function harnesses '
+                  'of C08, C09, C17 and the C11 history parts (long-lived plugins) are re-run and judged for panics / hangs. Translation tie (5 theorems, C13_gen.v): '
+                  'PluginState.Next, IsValid, SeqNumRange.Contains. Partial because a theorem excludes panics only at MODELLED sites: of 788 analyser-listed sites '
+                  '(docs/c13_sites.md) 356 are modelled and proved, 291 are swept only (sort comparators, map writes into fresh maps, make sizes, receiver fields, '
+                  'token-data HTTP client, merges, event decoding), 141 unreachable; hangs are modelled as unbounded loops and missing context checks, not as scheduling.',
+    'level_note': 'Partial by nature: code the models abstract (logging, third-party libraries, goroutine scheduling) is covered by the sweeps only, which are tests, not '
+                  'proofs. Trusted: Coq kernel, hand-written models and theorem statements, differential harness (watchdogs never depend on the wall clock alone, '
+                  'docs/timing_audit.md), leaf translator, the go/types + call-graph analyser that lists the sites. Specific: encoding/json, protobuf, math/big, '
+                  'hex.DecodeString, big.Int.SetString and logging with %v never panic (library oracles); contract-reader fakes answer within the contract of the real '
+                  'ccipChainReader guards; the (guard, use) models abstract payloads to lengths / nil-ness; division by zero of big.Int is not modelled by the '
+                  'translator. No axioms.',
+    'technique': 'Coq totality theorems (never Panic / Spin for all inputs, guard-needed witnesses) over res-monad Gallina models of 356 audited sites; exhaustive JSON '
+                 '/ reader-answer mutation sweeps and directed guard-boundary classes on the real code with a proved judge; PluginState.Next / IsValid / Contains '
+                 're-translated from Go. Partial: unmodelled sites are swept only',
 }
